@@ -17,9 +17,11 @@ import (
 //
 //verif:opts preempt sched=14 preemptfn=(*github.com/filecoin-project/go-data-transfer/v2/impl.timeCounter).next
 func VerifC18_ConcurrentNext() {
-	seed := zz.Uint64("seed")
+	// (the counter's representation is not touched: it is seeded through its constructor from the
+	// symbolic clock, and its value is only observed through next())
+	tc := newTimeCounter()
+	seed := tc.next()
 	zz.Assume(seed < 1<<63) // no wrap-around of the 64-bit counter (stated bound)
-	tc := &timeCounter{counter: seed}
 	var a1, a2, b1, b2 uint64
 	done := make(chan struct{}, 2)
 	go func() { a1 = tc.next(); a2 = tc.next(); done <- struct{}{} }()
@@ -41,13 +43,14 @@ func VerifC18_SuccessiveManagers() {
 	before := time.Now()
 	c0 := newTimeCounter()
 	after := time.Now()
-	zz.Assert(uint64(before.UnixNano()) <= c0.counter && c0.counter <= uint64(after.UnixNano()), "a manager's first ID is seeded from the wall clock in nanoseconds")
+	seed0 := c0.next() - 1
+	zz.Assert(uint64(before.UnixNano()) <= seed0 && seed0 <= uint64(after.UnixNano()), "a manager's first ID is seeded from the wall clock in nanoseconds")
 	c1 := newTimeCounter()
 	first := c1.next()
 	second := c1.next()
 	c2 := newTimeCounter()
-	zz.Assume(c2.counter >= c1.counter) // fewer IDs issued than nanoseconds elapsed (stated assumption)
 	later := c2.next()
+	zz.Assume(later-1 >= second) // c2's seed: fewer IDs issued than nanoseconds elapsed (stated assumption)
 	zz.Assert(second > first, "increasing within a manager")
 	zz.Assert(later > second && later > first, "a later manager starts above the IDs of an earlier one")
 	zz.Reach("done")
@@ -90,7 +93,7 @@ func VerifC18_DuplicateCreate() {
 		f.val.Result, f.val.Err = verifArbitraryResult("val")
 		req := verifArbitraryRequest("req")
 		zz.Assume(req.MessageType == uint64(types.NewMessage))
-		req.TransferId = uint64(chid.ID)
+		zz.SetInt(&req.TransferId, uint64(chid.ID))
 		_ = f.rcv.receiveRequest(context.Background(), chid.Initiator, req)
 		zz.Settle()
 		replies, _ := verifReplies(f)
@@ -109,14 +112,59 @@ func VerifC18_DuplicateCreate() {
 	zz.Assert(len(f.events) == 0, "and it sees no event")
 }
 
+// VerifC18_DuplicateCreateKeepsAccounting: "leaves the existing channel exactly as it was"
+// includes what the channel does NEXT: after a refused duplicate creation, a block position that the
+// existing channel had already counted is still recognised as a replay (not counted again), and a
+// data limit it had is still enforced on the next fresh block.
+func VerifC18_DuplicateCreateKeepsAccounting() {
+	f, st, chid := verifInstalled(1, 0)
+	zz.Assume(st.Status == datatransfer.Ongoing && st.SelfPeer == st.Responder)
+	zz.Assume(st.ReceivedBlocksTotal >= 1 && st.ReceivedBlocksTotal < 1<<62 && st.QueuedBlocksTotal >= 1 && st.QueuedBlocksTotal < 1<<62)
+	zz.Assume(st.Received < 1<<62 && st.Queued < 1<<62)
+	isPull := st.Initiator == st.Recipient
+	if zz.Bool("cachesWarm") {
+		// a replayed report seeds the caches from the durable state without changing anything
+		if isPull {
+			_, _ = f.m.OnDataQueued(chid, verifLink("w"), 0, st.QueuedBlocksTotal, true)
+		} else {
+			_ = f.m.OnDataReceived(chid, verifLink("w"), 0, st.ReceivedBlocksTotal, true)
+		}
+		zz.Reach("caches warm")
+	}
+	_, err := f.m.channels.CreateNew(st.SelfPeer, chid.ID, zz.Cid("b"), zz.Node("s"), datatransfer.TypedVoucher{Voucher: zz.Node("v"), Type: "t"}, st.Initiator, st.Sender, st.Recipient)
+	zz.Assert(err != nil, "creating an existing ID fails")
+	size := zz.Uint64("size")
+	zz.Assume(size > 0 && size < 1<<62)
+	pre := *f.g.VerifPeek(chid)
+	// a position the channel has already counted is re-reported
+	if isPull {
+		_, _ = f.m.OnDataQueued(chid, verifLink("l"), size, st.QueuedBlocksTotal, true)
+	} else {
+		_ = f.m.OnDataReceived(chid, verifLink("l"), size, st.ReceivedBlocksTotal, true)
+	}
+	post := f.g.VerifPeek(chid)
+	zz.Assert(channels.VerifSameCounters(&pre, post), "a replayed position is still recognised after the refused duplicate: nothing is counted twice")
+	// the next fresh block is judged against the limit and the progress the channel had
+	P := verifLimitedProgress(&st)
+	var err2 error
+	if isPull {
+		_, err2 = f.m.OnDataQueued(chid, verifLink("n"), size, st.QueuedBlocksTotal+1, true)
+	} else {
+		err2 = f.m.OnDataReceived(chid, verifLink("n"), size, st.ReceivedBlocksTotal+1, true)
+	}
+	want := st.DataLimit != 0 && P+size >= st.DataLimit
+	zz.Assert((err2 == datatransfer.ErrPause) == want, "the data limit and progress the channel had are still in force")
+	zz.Reach("accounting intact")
+}
+
 // VerifC18_ConcurrentNext3 (thorough): three goroutines x two IDs each.
 //
 //verif:tier thorough
 //verif:opts preempt sched=16 part0=8 part1=2 preemptfn=(*github.com/filecoin-project/go-data-transfer/v2/impl.timeCounter).next
 func VerifC18_ConcurrentNext3() {
-	seed := zz.Uint64("seed")
+	tc := newTimeCounter()
+	seed := tc.next()
 	zz.Assume(seed < 1<<63)
-	tc := &timeCounter{counter: seed}
 	var ids [3][2]uint64
 	done := make(chan struct{}, 3)
 	for k := 0; k < 3; k++ {
